@@ -219,6 +219,7 @@ func (c *Chan[T]) Send(v T) {
 		panic("send on closed channel")
 	}
 	raceAcquire(unsafe.Pointer(&c.slot0))
+	e.hbOp(unsafe.Pointer(c), OpSend)
 }
 
 // Recv is the instrumented form of <-c.
@@ -270,9 +271,11 @@ func (c *Chan[T]) Recv2() (T, bool) {
 	}
 	if w.closed {
 		raceAcquire(unsafe.Pointer(c))
+		e.hbOp(unsafe.Pointer(c), OpRecv)
 		return zero, false
 	}
 	raceAcquire(unsafe.Pointer(&c.slot0))
+	e.hbOp(unsafe.Pointer(c), OpRecv)
 	return w.val, w.ok
 }
 
@@ -554,5 +557,6 @@ func Select(hasDefault bool, cases ...SelCase) int {
 		e.block(OpSelect, nil, "select")
 	}
 	cases[st.fired].finish()
+	e.hbOp(cases[st.fired].addr(), OpSelect)
 	return st.fired
 }
